@@ -432,6 +432,42 @@ func c10Table(run *hx.Run, o *hx.Oracle, path string, db *sqlittle.DB, low *sdb.
 			}
 		}
 	}
+	// the parsed definitions attached to low-level handles: total (an error, never a panic, whatever kind of
+	// object the handle stands for) and, where they parse, about the right object
+	if err := low.RLock(); err == nil {
+		p, pm := safely(func() {
+			if t.WR == 0 {
+				if th, err := low.Table(t.Name); err == nil {
+					if def, err := th.Def(); err == nil {
+						run.Count("table_defs_parsed", 1)
+						if len(def.Columns) != len(names) {
+							bad("def/table-columns", fmt.Sprintf("Table(%q).Def() has %d columns, SQLite %d", t.Name, len(def.Columns), len(names)))
+						}
+					}
+				}
+			} else if ih, err := low.NonRowidTable(t.Name); err == nil {
+				// this handle carries the table's CREATE TABLE text: Def() has no CREATE INDEX to give
+				if _, err := ih.Def(); err == nil {
+					bad("def/without-rowid-table-as-index", fmt.Sprintf("NonRowidTable(%q).Def() returns a CREATE INDEX definition for a table", t.Name))
+				}
+				run.Count("without_rowid_handle_defs", 1)
+			}
+			for _, si := range s.Indexes {
+				if ih, err := low.Index(si.Index); err == nil {
+					if def, err := ih.Def(); err == nil {
+						run.Count("index_defs_parsed", 1)
+						if !strings.EqualFold(def.Table, t.Name) {
+							bad("def/index-table", fmt.Sprintf("Index(%q).Def() names table %q, it belongs to %q", si.Index, def.Table, t.Name))
+						}
+					}
+				}
+			}
+		})
+		low.RUnlock()
+		if p {
+			bad("def/panic", "Def() panicked: "+firstLines(pm, 3))
+		}
+	}
 	// the definition as reported must not depend on which reads ran before
 	if sigBefore != "" {
 		var s2 *sdb.Schema
